@@ -9,6 +9,8 @@
 //   hist2 F L op...               two arrays: A.<op> B.<op> mAB MAB xAB cAB kAB (move / swap / copy between them)
 #include "private_access.h"
 #include "momo/SegmentedArray.h"
+#include <unistd.h>
+#include <sys/wait.h>
 using namespace momo;
 typedef unsigned long long ull;
 typedef SegmentedArrayItemCountFunc Fn;
@@ -206,6 +208,7 @@ template<Fn F, size_t L, class Elem = Elem16, class MM = TrackMM> struct Track
 		const Arr& carr = arr;
 		size_t cnt = arr.GetCount();
 		if (cnt != twin.size()) fail = "count";
+		const size_t oldcnt0 = addr.size();   // element count before the operation
 		if (addrReset) addr.clear();
 		size_t keep = std::min(addr.size(), cnt);
 		auto it = arr.GetBegin(); auto cit = carr.GetBegin();
@@ -258,8 +261,23 @@ template<Fn F, size_t L, class Elem = Elem16, class MM = TrackMM> struct Track
 				if (idx != NONE && (firstTouch == NONE || idx < firstTouch))
 				{ fail = std::string("touched-") + ev.first + "@" + std::to_string(idx); break; }
 			}
+		// the destroyed slots are exactly the indexes [new count, old count) (nothing below the new count, nothing outside the array)
+		if (fail.empty() && checkEvents && !(addrReset && cnt > 0))
+		{
+			size_t oldcnt = oldcnt0; std::set<size_t> dead;
+			for (auto& ev : g_ev)
+				if (ev.first == 'd')
+				{
+					size_t idx = slot_of(segs, ev.second);
+					if (idx == NONE) continue;
+					if (idx < cnt || idx >= oldcnt) { fail = "destroyed-outside@" + std::to_string(idx); break; }
+					dead.insert(idx);
+				}
+			if (fail.empty() && oldcnt > cnt && dead.size() != oldcnt - cnt) fail = "destroyed-count";
+		}
 		addr.resize(cnt);
 		for (size_t i = 0; i < cnt; ++i) addr[i] = &arr[i];
+		std::vector<std::pair<void*, ull>> oldsegs = segs;
 		segs.swap(nsegs);
 		char buf[96]; snprintf(buf, sizeof buf, "%llu/%llu/%llu/%lld", ull(cnt), ull(sc), ull(arr.GetCapacity()), (sc && !segs.empty()) ? (long long)segs.back().second : -1LL);
 		out += buf;
@@ -276,6 +294,18 @@ template<Fn F, size_t L, class Elem = Elem16, class MM = TrackMM> struct Track
 				}
 			}
 			out += "/" + std::to_string(a);
+			// which slots did the operation DESTROY?  lowest and highest destroyed slot (as (id << 32) + offset in the table before the
+			// operation: `oldsegs`) and their number -- compared with the ghost log of the regenerated pvDecCount
+			long long lo = -1, hi = -1; ull nd = 0;
+			for (auto& ev : g_ev)
+				if (ev.first == 'd')
+					for (size_t s2 = 0; s2 < oldsegs.size(); ++s2)
+					{
+						const Elem* base = static_cast<const Elem*>(oldsegs[s2].first); const Elem* p = static_cast<const Elem*>(ev.second);
+						if (p >= base && p < base + S::GetItemCount(s2))
+						{ long long v = (long long)((oldsegs[s2].second << 32) + ull(p - base)); if (lo < 0 || v < lo) lo = v; if (v > hi) hi = v; ++nd; break; }
+					}
+			out += "/d" + std::to_string(lo) + ":" + std::to_string(hi) + "x" + std::to_string(nd);
 		}
 	}
 };
@@ -369,6 +399,41 @@ template<Fn F, size_t L, class E = Elem16, class MM = TrackMM> static void histo
 	puts(out.c_str());
 }
 
+// ---------------------------------------------------------------- the failing side of the three MOMO_CHECKs (forked child)
+// chk F L what n: array with n elements (made full for "nogrow"), then in a CHILD process the out-of-domain call:
+//   nogrow  AddBackNogrow on a full array      index  operator[](count)      removeback  RemoveBack(count + 1)
+// prints "returned" or "aborted <first line of the child's stderr, without directories and line numbers>"
+template<Fn F, size_t L> static void check_boundary(const std::string& what, size_t n)
+{
+	typedef SegmentedArray<ull, MemManagerDefault, SegmentedArrayItemTraits<ull, MemManagerDefault>, SegmentedArraySettings<F, L>> Arr;
+	Arr arr; arr.SetCount(n); arr.Shrink();
+	if (what == "nogrow") while (arr.GetCount() < arr.GetCapacity()) arr.AddBack(7);
+	int fd[2]; if (pipe(fd) != 0) { puts("pipe-failed"); return; }
+	fflush(stdout);
+	pid_t pid = fork();
+	if (pid == 0)
+	{
+		close(fd[0]); dup2(fd[1], 2); close(fd[1]);
+		volatile ull sink = 0;
+		if (what == "nogrow") arr.AddBackNogrow(9);
+		else if (what == "index") sink = arr[arr.GetCount()];
+		else if (what == "removeback") arr.RemoveBack(arr.GetCount() + 1);
+		(void)sink; _exit(0);
+	}
+	close(fd[1]); std::string err; char buf[512]; ssize_t k;
+	while ((k = read(fd[0], buf, sizeof buf)) > 0) err.append(buf, size_t(k));
+	close(fd[0]); int st = 0; waitpid(pid, &st, 0);
+	if (WIFEXITED(st) && WEXITSTATUS(st) == 0) { puts("returned"); return; }
+	std::string line = err.substr(0, err.find('\n'));
+	size_t sl = line.rfind('/', line.find(':')); if (sl != std::string::npos) line = line.substr(sl + 1);   // drop directories
+	std::string out; for (size_t i = 0; i < line.size(); ++i) { if (line[i] == ':' && i + 1 < line.size() && isdigit((unsigned char)line[i + 1])) { while (i + 1 < line.size() && isdigit((unsigned char)line[i + 1])) ++i; continue; } out += line[i]; }
+	printf("aborted %s\n", out.substr(0, 300).c_str());
+}
+template<Fn F> static void chk_dispatch(size_t l, const std::string& what, size_t n)
+{
+	switch (l) { case 0: check_boundary<F, 0>(what, n); break; case 3: check_boundary<F, 3>(what, n); break; case 5: check_boundary<F, 5>(what, n); break; default: puts("?L"); }
+}
+
 // ---------------------------------------------------------------- dispatch on the template parameter L
 template<Fn F, size_t L> struct Disp
 {
@@ -435,6 +500,11 @@ int main()
 			ull l, s, j; is >> l >> s >> j;
 			auto f = [&](auto x) { decltype(x)::rev(size_t(s), size_t(j)); };
 			if (cmd == "sqx") Disp<Fn::sqrt, 63>::go(l, f); else Disp<Fn::cnst, 63>::go(l, f);
+		}
+		else if (cmd == "chk")
+		{
+			std::string f, what; ull l, n; is >> f >> l >> what >> n;
+			if (f == "sq") chk_dispatch<Fn::sqrt>(l, what, size_t(n)); else chk_dispatch<Fn::cnst>(l, what, size_t(n));
 		}
 		else if (cmd == "hist2")
 		{
